@@ -123,6 +123,10 @@ func outputFragment(valid bool, k int) *Node {
 	return pool[k%len(pool)]
 }
 
+// oldContent: what an existing target holds before the call under test (for every second tree it is LONGER than the new
+// output: a generator whose output got shorter since the last run)
+var oldContent = "OLD CONTENT\n"
+
 func fsState(path string, expected []byte) string {
 	st, err := os.Stat(path)
 	if err != nil {
@@ -135,7 +139,7 @@ func fsState(path string, expected []byte) string {
 	if err != nil {
 		return "other"
 	}
-	if string(b) == "OLD CONTENT\n" {
+	if string(b) == oldContent {
 		return "old"
 	}
 	if expected != nil && bytes.Equal(b, expected) {
@@ -290,7 +294,11 @@ func runOutputCase(tw *TraceWriter, id int, p OutParams, variant int, scratch st
 		target = filepath.Join(dir, "out.go")
 	case "present":
 		target = filepath.Join(dir, "out.go")
-		os.WriteFile(target, []byte("OLD CONTENT\n"), 0644)
+		oldContent = "OLD CONTENT\n"
+		if variant%2 == 1 {
+			oldContent += strings.Repeat("// a line of the previous, longer output\n", len(expected)/40+8)
+		}
+		os.WriteFile(target, []byte(oldContent), 0644)
 		before = "old"
 	case "nearsame":
 		// the target already holds the output except for white space at its end
